@@ -5,7 +5,7 @@ from lib import vlib
 from lib.gen import *
 from lib.apigen import *
 
-THEOREMS = ["spec_vectors_rfc3711_b2_b3", "iv_formation_equal", "kdf_equal"]
+THEOREMS = ["ctr_keystream_cm", "rtp_iv_spec", "rtcp_iv_spec", "cipher_encrypt_spec_k", "kdf_generate_spec", "derive_keys_spec_128", "derive_keys_spec_256", "session_rtp_encrypt", "session_rtcp_encrypt", "session_xtn_encrypt", "kdf_boundary_differs"]
 TRUSTED_BASE = ["Coq 8.16.1 kernel", "tools/gen_constants.py", "extraction (ExtrOcamlBasic) + harness/mdrv.ml",
                 "coq/Spec/Rfc3711.v: my transcription of RFC 3711 4.1.1/4.2/4.3/3.4, RFC 6188, RFC 6904 over Gallina AES / HMAC-SHA1; "
                 "validated by the RFC 3711 B.2 (AES-CM keystream) and B.3 (key derivation) vectors as Coq Examples",
